@@ -43,7 +43,7 @@ def main():
     try:
         sh("rsync -a --exclude .git /repo/ %s/" % S)
         env = dict(os.environ, PYTHONPATH=S, PYTHONHASHSEED="0", PYTHONDONTWRITEBYTECODE="1")
-        text = open(demo).read().replace("/tmp/wt2-%s" % pid, S).replace("/tmp/wt-%s" % pid, S)
+        text = open(demo).read().replace("/tmp/wt3-%s" % pid, S).replace("/tmp/wt2-%s" % pid, S).replace("/tmp/wt-%s" % pid, S)
         dpath = os.path.join(S, "_demo.py")
         open(dpath, "w").write(text)
         rc0, out0 = sh("%s %s" % (PY, dpath), cwd=S, env=env, timeout=900)
